@@ -7,7 +7,7 @@
 """
 
 import os
-from typing import Callable, Dict, Optional
+from typing import Awaitable, Callable, Dict, Optional
 
 ENABLED = os.environ.get('RONF_ASYNCSSH_VERIF') == '1'
 
@@ -28,3 +28,14 @@ def emit(event: str, **fields: object) -> None:
 
     if sink is not None:
         sink(event, fields)
+
+
+async def traced(coro: 'Awaitable[object]', event: str,
+                 **fields: object) -> object:
+    """Await coro and report event at the moment it finishes, in the same
+       task step (a task's done callbacks only run a loop iteration later)"""
+
+    try:
+        return await coro
+    finally:
+        emit(event, **fields)
